@@ -52,7 +52,7 @@ def report_known(rep, res, sigs):
                 seen.setdefault(m.group(2), []).append(t)
     for sig, ts in sorted(seen.items()):
         k = sigs.get(sig, {})
-        rep.known_finding(f"[{k.get('id', sig)}] {k.get('line', sig)[:400]} (matched {len(ts)} recorded cases, e.g. {ts[0][:200]})")
+        rep.known_finding(f"[{k.get('id', sig)}] {k.get('line', sig)[:400]} (matched in {len(ts)} places of the recorded traces, e.g. {ts[0][:200]})")
     return {s: len(t) for s, t in seen.items()}
 
 
